@@ -186,8 +186,10 @@ def drive(cases, tier):
         idx = [i for i, c in enumerate(cases) if c["kind"] == kind and (which is None or c["which"] == which)]
         if not idx:
             continue
+        # the sqlx / redis / api-handler packages also hold other properties' drivers: ours is TestVerifDriverC01 there
+        run = "^TestVerifDriverC01$" if pkg in ("./lib/store/sqlx", "./lib/store/redis", "./api/handler") else "^TestVerifDriver$"
         o, lg = run_driver(pkg, [cases[i] for i in idx], name="C01%s%s_%s" % (kind, "" if which is None else which, tier),
-                           timeout=600)
+                           timeout=600, run=run)
         logs.append(lg[-1500:])
         if o is None:
             return None, lg
